@@ -79,7 +79,7 @@ impl Property for C15 {
          oracle = exact negation / brute force arg-best over the sample table; non-trivial = >=3 samples with mixed feasibility and relaxed set != unrelaxed set, or a maximisation instance; distinct = sha256(case)"
     }
     fn required_labels(&self) -> Vec<String> {
-        ["mode=minimization", "mode=evaluated-samples", "mode=handbuilt", "tie", "maximize", "legacy-1.6", "new-style", "none-feasible", "relaxed!=unrelaxed", "mixed-feasibility"].iter().map(|s| s.to_string()).collect()
+        ["mode=minimization", "mode=evaluated-samples", "mode=handbuilt", "tie", "maximize", "legacy-1.6", "new-style", "none-feasible", "relaxed!=unrelaxed", "mixed-feasibility", "objectives-one-ulp-apart", "infinite-objective"].iter().map(|s| s.to_string()).collect()
     }
     fn cases(&self, tier: Tier) -> usize {
         match tier {
@@ -271,9 +271,22 @@ impl Property for C15 {
                 let mut rel: BTreeMap<u64, bool> = BTreeMap::new();
                 let mut all: BTreeMap<u64, bool> = BTreeMap::new();
                 let base = *t.pick(&[0u64, 10, 1 << 40]);
+                // objective pools: small dyadics (ties), values one ulp apart, and infinities
+                let pool_kind = t.weighted(&[6, 3, 2]);
+                let near: [f64; 8] = [0.3, 0.30000000000000004, 0.1 + 0.2, 1.0, 1.0000000000000002, 0.0, 1e-16, -1e-16];
+                let infs: [f64; 5] = [f64::INFINITY, f64::NEG_INFINITY, 0.0, 1e308, -1e308];
+                match pool_kind {
+                    1 => ctx.label("objectives-one-ulp-apart"),
+                    2 => ctx.label("infinite-objective"),
+                    _ => {}
+                }
                 for i in 0..n {
                     let id = base + i as u64 * 2;
-                    let o = t.int_around(0, -3, 3) as f64 / 2.0;
+                    let o = match pool_kind {
+                        0 => t.int_around(0, -3, 3) as f64 / 2.0,
+                        1 => *t.pick(&near),
+                        _ => *t.pick(&infs),
+                    };
                     pairs.push((id, o));
                     let fr = t.coin();
                     let fa = fr && t.coin(); // all-constraints feasibility implies remaining-constraints feasibility
